@@ -7,7 +7,7 @@ def step_cases(rng, tier):
     """arbitrary states incl. absurd IM, interrupts with empty / long data, PC 0xFFFF, prefix sequences cut off at 0xFFFF: Gen-vs-Go"""
     lines, meta = [], {}
     encs = cases.encodings()
-    n = 400 if tier == "quick" else 8000
+    n = 400 if tier == "quick" else 80000
     for k in range(n):
         e = rng.choice(encs)
         cid = "z%d" % k
@@ -35,7 +35,7 @@ def run(tier, seed):
     rng = common.Rng(seed)
     pr = pipeline.proof_stage(PROP)
     go_bin = pipeline.build_stepper()
-    nf = 400 if tier == "quick" else 20000
+    nf = 400 if tier == "quick" else 200000
     fr = fuzz(go_bin, seed, nf)
     lines, meta = step_cases(rng, tier)
     broken, detail = pr["broken"], pr["detail"]
